@@ -1065,6 +1065,7 @@ type stallRW struct {
 	blocked chan struct{} // closed when the stalled Write was entered
 	second  chan struct{} // closed when another Write was entered meanwhile
 	release chan struct{}
+	landed  chan struct{} // closed when the stalled Write has been appended to the wire
 }
 
 func (w *stallRW) Header() http.Header { return w.hdr }
@@ -1091,6 +1092,9 @@ func (w *stallRW) Write(p []byte) (int, error) {
 	w.mu.Lock()
 	w.wire = append(w.wire, p...)
 	w.mu.Unlock()
+	if n == 1 && len(p) > 0 && p[0] == 0x00 {
+		close(w.landed)
+	}
 	return len(p), nil
 }
 
@@ -1151,7 +1155,7 @@ func execStalled(kv map[string]string) string {
 		wire = append(wire, encFrame(fd)...)
 	}
 	mode := kv["sp"]
-	rw := &stallRW{hdr: http.Header{}, blocked: make(chan struct{}), second: make(chan struct{}), release: make(chan struct{})}
+	rw := &stallRW{hdr: http.Header{}, blocked: make(chan struct{}), second: make(chan struct{}), release: make(chan struct{}), landed: make(chan struct{})}
 	body := &stallBody{first: wire, tail: UnCB(kv["tl"]), gate: rw.blocked, end: make(chan struct{}), hold: strings.HasPrefix(mode, "timeout")}
 	req := httptest.NewRequest(http.MethodPost, sc.path, body)
 	req.Header.Set("Content-Type", "application/grpc-web+proto")
@@ -1177,6 +1181,11 @@ func execStalled(kv map[string]string) string {
 		after(rw.second, 150*time.Millisecond) // give a (wrongly) early trailer the time to be written
 	}
 	close(rw.release)
+	if blk == "yes" {
+		// the released Write lands on the wire whether or not the handler waits for it: a handler that has already written its
+		// trailer (or returned) is then seen with a data frame AFTER the trailer
+		after(rw.landed, watchdog())
+	}
 	hs := sc.handlerState()
 	close(body.end)
 	rw.mu.Lock()
